@@ -68,13 +68,21 @@ func c07Exec(op string) string {
 		}
 		if name == "exists" {
 			ok, err := mxj.Map(m).Exists(path, subs...)
+			// Exists is "ValuesForPath yields something" (a nil value is a value)
+			note := ""
+			vs, verr := mxj.Map(m).ValuesForPath(path, subs...)
+			if (verr == nil) != (err == nil) {
+				note = fmt.Sprintf("EXISTS Exists error=%v but ValuesForPath error=%v", err, verr)
+			} else if err == nil && ok != (len(vs) > 0) {
+				note = fmt.Sprintf("EXISTS Exists=%v but ValuesForPath yields %d value(s)", ok, len(vs))
+			}
 			if err != nil {
-				return "err " + errKindOf(err)
+				return "err " + errKindOf(err) + " | " + note
 			}
 			if ok {
-				return "ok t"
+				return "ok t | " + note
 			}
-			return "ok f"
+			return "ok f | " + note
 		}
 		vs, err := mxj.Map(m).ValuesForPath(path, subs...)
 		return showRes(vs, err)
@@ -222,6 +230,12 @@ func c07Judge(op, impl, model string) Verdict {
 			v.Sig = name + ":panic"
 		}
 	case "exists":
+		ipv := splitModel(impl)
+		if len(ipv) > 1 && ipv[1] != "" {
+			v.OracleFail = ipv[1]
+			v.Sig = "exists:consistency"
+		}
+		impl = ipv[0]
 		v.CorrOK = impl == model
 		v.Nontrivial = strings.HasPrefix(impl, "ok")
 		v.Tags = append(v.Tags, name)
